@@ -29,8 +29,10 @@ from engine import common, runpy as erunpy
 # `maxlength` for handle_long_imports): LongDepth = 3 in the spec.
 NAMES = {
     "a": "module_aa", "b": "module_bb", "c": "module_cc", "d": "module_dd", "e": "module_ee",
+    "s": "module_ss", "t": "module_tt",
     "p": "package_p", "q": "package_q", "r": "package_r",
     "f": "fun_f", "g": "obj_g", "h": "own_h", "_h": "_hid_h", "k": "key_k",
+    "v": "val_v", "w": "wid_w",
     "x": "al_x", "y": "al_y",
 }
 UNNAMES = {v: k for k, v in NAMES.items()}
@@ -57,14 +59,24 @@ def file_of(path, is_pkg):
 
 
 # ---------------------------------------------------------------- rendering
+def ident_expr(s):
+    """python expression of the string a definition identifies itself with: its id, then what
+    its own references reach, looked up when it is called"""
+    ident = "D:" + apath(s["id"])
+    refs = s.get("refs") or []
+    if not refs:
+        return repr(ident)
+    return "%r + '(' + %s + ')'" % (ident, " + ',' + ".join(rpath(r) + "()" for r in refs))
+
+
 def render_def(s):
-    name, ident = rn(s["n"]), "D:" + apath(s["id"])
+    name, ident = rn(s["n"]), ident_expr(s)
     if s["kind"] == "fn":
-        return "def %s():\n    return %r\n" % (name, ident)
+        return "def %s():\n    return %s\n" % (name, ident)
     if s["kind"] == "cls":
-        return "class %s:\n    def __new__(cls):\n        return %r\n" % (name, ident)
+        return "class %s:\n    def __new__(cls):\n        return %s\n" % (name, ident)
     if s["kind"] == "var":
-        return "%s = lambda: %r\n" % (name, ident)
+        return "%s = lambda: %s\n" % (name, ident)
     raise ValueError(s)
 
 
@@ -131,14 +143,19 @@ def read_files(root):
 # ---------------------------------------------------------------- spec predictions as text
 def spec_lines(obs_entry):
     """[{"m","out","err"}] entry of the export -> list of printed lines"""
-    return ["M:%s D:%s" % (apath(l[0]), apath(l[1])) for l in obs_entry["out"]]
+    out = []
+    for l in obs_entry["out"]:
+        subs = "(%s)" % ",".join("D:" + apath(x) for x in l[2]) if l[2] else ""
+        out.append("M:%s D:%s%s" % (apath(l[0]), apath(l[1]), subs))
+    return out
 
 
 def spec_value(v, modname_of=rpath):
     if v["t"] == "def":
         return "D:" + apath(v["x"])
     if v["t"] == "mod":
-        return "mod:" + modname_of(v["x"])
+        # the spec's value for "the module has no such attribute"
+        return "missing" if v["x"] == ["?"] else "mod:" + modname_of(v["x"])
     return "?:" + json.dumps(v, sort_keys=True)
 
 
@@ -239,6 +256,11 @@ def run_entries_fresh(root, entries):
         o, exc = erunpy.run_module(root, entry)
         out[entry] = {"out": o, "exc": exc}
     return out
+
+
+def heads(exports):
+    """identities as the spec's values have them: without what the definition's references reach"""
+    return {n: v.split("(")[0] for n, v in exports.items()}
 
 
 def own_lines(out, mid):
@@ -453,7 +475,7 @@ def shape(prog, focus=None):
 
 
 def drive(prop, tier, scopes, invariants, replay_fn, acts_fn, quick_limit, act_key, assumptions, rule,
-          env_prefix, tlc_parallel=6, tlc_workers=2):
+          env_prefix, tlc_parallel=6, tlc_workers=2, small_all=lambda name: False):
     """The common course of a PyModules check.
 
     scopes: [(name, constants)]; replay_fn(item) -> result dict (module-level function, runs in the
@@ -496,15 +518,20 @@ def drive(prop, tier, scopes, invariants, replay_fn, acts_fn, quick_limit, act_k
             if limit is not None and len(progs) > limit:
                 exhaustive = False
                 rnd = common.rng("%s/%s" % (prop, name))
+                # every program of at most two statements (they are the usual cores, and keep the
+                # check's sensitivity independent of the seed), a seeded sample of the larger ones
                 small = [p for p in progs if size_of(p) <= 2]
                 rest = [p for p in progs if size_of(p) > 2]
-                rnd.shuffle(small)
                 rnd.shuffle(rest)
-                small = small[:limit // 3]
-                chosen = small + rest[:max(0, limit - len(small))]
+                if small_all(name):
+                    chosen = small + rest[:limit]
+                else:
+                    rnd.shuffle(small)
+                    small = small[:limit // 3]
+                    chosen = small + rest[:max(0, limit - len(small))]
             for i, p in enumerate(chosen):
                 rnd = common.rng("%s/%s/%s" % (prop, name, prog_key(p)))
-                items.append({"prog": p, "acts": acts_fn(p, c, rnd), "scope": name, "fresh": i % 97 == 0})
+                items.append({"prog": p, "acts": acts_fn(p, c, rnd, tier), "scope": name, "fresh": i % 97 == 0})
     print("TLC PyModules: %d scopes, %d states, %d programs exported, %.1fs" % (
         len(tlc_stats), states, len(index), timer.s()))
     for n, st in tlc_stats.items():
